@@ -50,13 +50,25 @@ def main():
                                "reference oracles, shrinking to a JSON replay file"},
             {"name": "crash-enumeration", "path": "/verif/vd/crash.py", "serves_properties": ["C15"],
              "kind_free_text": "forked child killed with os._exit before the n-th filesystem-mutating CPython audit "
-                               "event; every n enumerated per Hypothesis-generated scenario"},
+                               "event under the scratch root (or the harness's own mid-copy event: copies are done in "
+                               "two halves); every n enumerated per canonical or Hypothesis-generated scenario (sampled "
+                               "only for the >1000-file scenario), and again over the re-run where a kill left a "
+                               "mismatching leftover"},
             {"name": "schedule-control", "path": "/verif/vd/sched.py", "serves_properties": ["C16"],
-             "kind_free_text": "cooperative scheduler: exactly one registered writer thread runs, switches at audit-event "
-                               "and stat yield points follow a Hypothesis-generated schedule"},
+             "kind_free_text": "cooperative scheduler: exactly one registered writer thread runs; switches at open, "
+                               "mutating-audit-event, mid-copy and os.stat/lstat yield points under the scratch root "
+                               "(optionally also at every Python call into selected dvc_data modules, with a rendezvous "
+                               "of two writers at drawn call labels) follow a Hypothesis-generated schedule. C16's "
+                               "process arm is perturbed, not controlled: forked writers only sleep drawn micro-delays "
+                               "at the same yield points, optionally one of them stalls inside its first "
+                               "state-database transactions"},
             {"name": "fault-injection", "path": "/verif/vd/faults.py", "serves_properties": ["C04", "C11", "C12", "C18"],
-             "kind_free_text": "os.replace/rename/link/symlink patched for the duration of a transfer: EIO for ids in the "
-                               "generated fault plan, BaseException abort before the k-th placement, monitor after each"},
+             "kind_free_text": "os.replace/rename/link/symlink patched for the duration of a transfer: OSError(EIO) "
+                               "(C04/C11: a drawn errno among EIO, ENOENT, EACCES, ENOSPC; C18: kind chosen per id, also "
+                               "TimeoutError) for ids in the generated fault plan - in partial mode (C04 on local-class "
+                               "destinations, C11, C12) after leaving the first half of the bytes, unprotected, under "
+                               "the final name, as a destination without atomic placement does -, BaseException abort "
+                               "before the k-th placement, monitor after each completed placement"},
             {"name": "atheris", "path": "/verif/vd/props/c14_booster.py", "serves_properties": ["C14"],
              "kind_free_text": "optional coverage-guided booster (libFuzzer via atheris) in the thorough tier; Hypothesis "
                                "remains the deciding engine"},
